@@ -439,6 +439,10 @@ func c11RunCorrupt(w *vfWorld, signer string, cr c11Corrupt, c *vfeng.Ctx) (viol
 	}
 	// through the handlers (realistic chain)
 	tlsState := w.vfTLSFor(leaf)
+	saved := w.state.Config.Base.AllowedAuthBackendsForCerts
+	defer func() { w.state.Config.Base.AllowedAuthBackendsForCerts = saved }()
+	for _, backends := range [][]string{{"IPCertificate"}, {"password", "IPCertificate"}, {"password"}} {
+	w.state.Config.Base.AllowedAuthBackendsForCerts = backends
 	for _, path := range []string{refreshRoleRequestingCertPath, certgenPath + vfAutoUser} {
 		var req vfReq
 		if path == refreshRoleRequestingCertPath {
@@ -459,13 +463,14 @@ func c11RunCorrupt(w *vfWorld, signer string, cr c11Corrupt, c *vfeng.Ctx) (viol
 		}
 		if resp.Code == 200 {
 			if c != nil {
-				c.Violate("C11|corrupt-extension-admitted|handler", fmt.Sprintf("%s with extension %s from %s answered 200", path, cr.Name, c11ProbeOutside), pt)
+				c.Violate("C11|corrupt-extension-admitted|handler", fmt.Sprintf("%s with extension %s from %s answered 200 (certificate methods %v)", path, cr.Name, c11ProbeOutside, backends), pt)
 			}
 			return true, "admitted"
 		}
 		if c != nil {
 			c.Class(fmt.Sprintf("corrupt|%s|%d", signer, resp.Code), pt)
 		}
+	}
 	}
 	return false, ""
 }
@@ -499,7 +504,7 @@ func init() {
 	vfRegister(&vfeng.Check{
 		ID:    "C11",
 		Level: "model_checking",
-		Rule:  "exhaustive product prefix length 0..32 x 7 base addresses x boundary peers (network, broadcast, +-1, middle, single-bit flips) x peer forms (v4, v4-mapped v6, v6, zone, no port, text) plus multi-block lists, at library level (GenIPRestrictedX509Cert -> Verify/Extract) and through the real mint / refresh / certgen handlers with realistic verified chains; plus structurally corrupted extensions (bit lengths 0..48, wrong family, 300 blocks, every truncation and byte flip) signed by a trusted CA; oracle: uint32 arithmetic",
+		Rule:  "exhaustive product prefix length 0..32 x 7 base addresses x boundary peers (network, broadcast, +-1, middle, single-bit flips) x peer forms (v4, v4-mapped v6, v6, zone, no port, text) plus multi-block lists, at library level (GenIPRestrictedX509Cert -> Verify/Extract) and through the real mint / refresh / certgen handlers with realistic verified chains; plus structurally corrupted extensions (bit lengths 0..48, wrong family, 300 blocks, every truncation and byte flip) signed by a trusted CA, through the handlers under three certificate-method configurations; oracle: uint32 arithmetic",
 		Assumptions: []string{"IPv4-mapped IPv6 peers denote the same IPv4 address", "a peer string without a port is not a TCP peer address and must be refused"},
 		Shards: func(tier string) int { return 12 },
 		Run: func(c *vfeng.Ctx) {
